@@ -27,11 +27,13 @@ import (
 	"fmt"
 	"os"
 	"path/filepath"
+	"reflect"
 	"runtime"
 	"runtime/debug"
 	"strconv"
 	"strings"
 	"time"
+	"unsafe"
 
 	"github.com/golang/protobuf/ptypes/empty"
 	"github.com/massnetorg/mass-core/blockchain"
@@ -88,6 +90,7 @@ func (x *apiExec) env() *WEnv {
 }
 
 func (x *apiExec) fresh() {
+	releaseChain(x.bc)
 	x.srv, x.srvWm, x.bc, x.bcTip = nil, nil, nil, ""
 	x.last = "none"
 	x.ks = map[string]string{}
@@ -129,12 +132,27 @@ func (x *apiExec) server() *api.APIServer {
 	return x.srv
 }
 
+// releaseChain ends the block-processor goroutine of a Blockchain that is no longer used (mass-core has no
+// Stop for it: the goroutine ranges over an unexported channel and would pin the whole object for ever;
+// thousands of histories would not fit in memory). Harness-only: closes that channel through reflection.
+func releaseChain(bc *blockchain.Blockchain) {
+	if bc == nil {
+		return
+	}
+	defer func() { recover() }()
+	f := reflect.ValueOf(bc).Elem().FieldByName("processBlockCh")
+	if f.IsValid() && f.Kind() == reflect.Chan {
+		reflect.NewAt(f.Type(), unsafe.Pointer(f.UnsafeAddr())).Elem().Close()
+	}
+}
+
 // chain returns a real Blockchain whose index was loaded from the chain database's current best chain.
 func (x *apiExec) chain() *blockchain.Blockchain {
 	tip := x.e.Tip().name + "/" + strconv.Itoa(len(x.e.chain))
 	if x.bc != nil && x.bcTip == tip {
 		return x.bc
 	}
+	releaseChain(x.bc)
 	x.bcN++
 	cache := filepath.Join(x.e.dir, fmt.Sprintf("bccache-%d", x.bcN))
 	os.MkdirAll(cache, 0700)
@@ -705,6 +723,12 @@ func (x *apiExec) exec1(a []string) string {
 			return p
 		}
 		return out
+	case a[0] == "mem" && len(a) == 1:
+		// debugging aid (not generated): heap in MB and goroutines
+		var ms runtime.MemStats
+		runtime.GC()
+		runtime.ReadMemStats(&ms)
+		return fmt.Sprintf("heap=%dMB goroutines=%d bc=%d", ms.HeapAlloc>>20, runtime.NumGoroutine(), x.bcN)
 	case a[0] == "cur" && len(a) == 1:
 		id := e.wm.CurrentWallet()
 		if id == "" {
